@@ -7,9 +7,14 @@
 //   proj P..            the named projection of the parsed AST (before renaming)
 //   ren  d=x.0 u=x ..   every variable occurrence after renaming, in visit order
 //                       (d declaration, t substitution target, u other use)
-//   rep  CODE:s-e:s-e   the reports pushed by the pass (primary, secondary range)
-//        | perr CODE:s-e  the error returned by the parameter pre-pass
+//   rep  CODE:s-e:s-e:NAME  the reports pushed by the pass (primary, secondary range, the
+//                       name(s) quoted in the message and the notes)
+//        | perr CODE:s-e:-:NAME  the error returned by the parameter pre-pass
 //   ir   d=x/0 u=x/- .. (name, suffix) of every IR variable occurrence after lifting
+//   tab  x/0@s-e:L ..   the `Declarations` table of the CFG (sorted): key, location, type
+//                       (L local, S signal, C component, A anonymous component)
+//   dcl  d@s-e:L u- ..  per IR occurrence (same order as `ir`): what `Cfg::get_declaration`
+//                       answers for it (location and type of the declaration, `-`: none)
 //   ssa  [params] w=x/-/1 r=x/0/2 p=.. a=.. every occurrence after `into_ssa`, with versions
 //
 // Projection (prefix tokens, explicit counts):
@@ -210,12 +215,45 @@ fn occurrences(s: &Statement, out: &mut Vec<String>) {
 
 // ---- reports ----
 
+/// The names quoted (between backquotes) in a text, in order.
+fn quoted(text: &str, out: &mut Vec<String>) {
+    let parts: Vec<&str> = text.split('`').collect();
+    let mut i = 1;
+    while i + 1 < parts.len() {
+        out.push(parts[i].to_string());
+        i += 2;
+    }
+}
+
+/// CODE:primary ranges:secondary ranges:NAME -- NAME is the name the report
+/// displays: every backquoted word of the message and of the notes; one name
+/// if they all agree, the `,`-joined list otherwise, `?` if nothing is quoted.
 fn show_report(r: &Report) -> String {
     let lab = |l: &Vec<program_structure::report::ReportLabel>| {
         l.iter().map(|l| format!("{}-{}", l.range.start, l.range.end)).collect::<Vec<_>>().join("+")
     };
     let (p, s) = (lab(r.primary()), lab(r.secondary()));
-    format!("{}:{}:{}", r.id(), if p.is_empty() { "-".to_string() } else { p }, if s.is_empty() { "-".to_string() } else { s })
+    let mut names = Vec::new();
+    quoted(r.message(), &mut names);
+    for n in r.notes() {
+        quoted(n, &mut names);
+    }
+    let shown = names.len();
+    names.dedup();
+    let name = if names.is_empty() {
+        "?".to_string()
+    } else if names.len() == 1 {
+        names[0].replace(' ', "%20")
+    } else {
+        format!("{}#{}", names.join(",").replace(' ', "%20"), shown)
+    };
+    format!(
+        "{}:{}:{}:{}",
+        r.id(),
+        if p.is_empty() { "-".to_string() } else { p },
+        if s.is_empty() { "-".to_string() } else { s },
+        name
+    )
 }
 
 // ---- IR walks ----
@@ -229,43 +267,77 @@ fn vn(v: &ir::VariableName, versions: bool) -> String {
     }
 }
 
-fn ir_access(access: &[ir::AccessType], ver: bool, out: &mut Vec<String>) {
-    for a in access {
-        if let ir::AccessType::ArrayAccess(i) = a {
-            ir_uses(i, ver, out);
+fn type_letter(t: &ir::VariableType) -> &'static str {
+    match t {
+        ir::VariableType::Local => "L",
+        ir::VariableType::Signal(..) => "S",
+        ir::VariableType::Component => "C",
+        ir::VariableType::AnonymousComponent => "A",
+    }
+}
+
+/// How an occurrence is printed: `tag=name/suffix[/version]`, or (Lookup) the tag
+/// followed by what `Cfg::get_declaration` answers for the name.
+enum Show<'a> {
+    Name { versions: bool },
+    Lookup(&'a Cfg),
+}
+
+impl Show<'_> {
+    fn ver(&self) -> bool {
+        matches!(self, Show::Name { versions: true })
+    }
+    fn occ(&self, tag: &str, v: &ir::VariableName) -> String {
+        match self {
+            Show::Name { versions } => format!("{tag}={}", vn(v, *versions)),
+            Show::Lookup(cfg) => match cfg.get_declaration(v) {
+                None => format!("{tag}-"),
+                Some(d) => {
+                    let l = d.file_location();
+                    format!("{tag}@{}-{}:{}", l.start, l.end, type_letter(d.variable_type()))
+                }
+            },
         }
     }
 }
 
-fn ir_uses(e: &ir::Expression, ver: bool, out: &mut Vec<String>) {
+fn ir_access(access: &[ir::AccessType], sh: &Show, out: &mut Vec<String>) {
+    for a in access {
+        if let ir::AccessType::ArrayAccess(i) = a {
+            ir_uses(i, sh, out);
+        }
+    }
+}
+
+fn ir_uses(e: &ir::Expression, sh: &Show, out: &mut Vec<String>) {
     use ir::Expression::*;
-    let tag = if ver { "r" } else { "u" };
+    let tag = if sh.ver() { "r" } else { "u" };
     match e {
-        Variable { name, .. } => out.push(format!("{tag}={}", vn(name, ver))),
+        Variable { name, .. } => out.push(sh.occ(tag, name)),
         Access { var, access, .. } => {
-            out.push(format!("{tag}={}", vn(var, ver)));
-            ir_access(access, ver, out);
+            out.push(sh.occ(tag, var));
+            ir_access(access, sh, out);
         }
         Update { var, access, rhe, .. } => {
             // only reached for an Update that is not the right-hand side of a substitution
-            out.push(format!("{tag}={}", vn(var, ver)));
-            ir_access(access, ver, out);
-            ir_uses(rhe, ver, out);
+            out.push(sh.occ(tag, var));
+            ir_access(access, sh, out);
+            ir_uses(rhe, sh, out);
         }
         InfixOp { lhe, rhe, .. } => {
-            ir_uses(lhe, ver, out);
-            ir_uses(rhe, ver, out);
+            ir_uses(lhe, sh, out);
+            ir_uses(rhe, sh, out);
         }
-        PrefixOp { rhe, .. } => ir_uses(rhe, ver, out),
+        PrefixOp { rhe, .. } => ir_uses(rhe, sh, out),
         SwitchOp { cond, if_true, if_false, .. } => {
-            ir_uses(cond, ver, out);
-            ir_uses(if_true, ver, out);
-            ir_uses(if_false, ver, out);
+            ir_uses(cond, sh, out);
+            ir_uses(if_true, sh, out);
+            ir_uses(if_false, sh, out);
         }
         Number(..) => {}
-        Call { args, .. } => args.iter().for_each(|a| ir_uses(a, ver, out)),
-        InlineArray { values, .. } => values.iter().for_each(|a| ir_uses(a, ver, out)),
-        Phi { args, .. } => args.iter().for_each(|a| out.push(format!("{tag}={}", vn(a, ver)))),
+        Call { args, .. } => args.iter().for_each(|a| ir_uses(a, sh, out)),
+        InlineArray { values, .. } => values.iter().for_each(|a| ir_uses(a, sh, out)),
+        Phi { args, .. } => args.iter().for_each(|a| out.push(sh.occ(tag, a))),
     }
 }
 
@@ -276,59 +348,75 @@ fn ir_uses(e: &ir::Expression, ver: bool, out: &mut Vec<String>) {
 /// that is filled element by element is never written), targets are
 /// `w=`, phi targets `p=` followed by their arguments `a=` (a phi argument may
 /// name a version that is never written: the variable is not live there).
-fn ir_occurrences(cfg: &Cfg, ver: bool) -> Vec<String> {
+fn ir_occurrences(cfg: &Cfg, sh: &Show) -> Vec<String> {
     use ir::Statement::*;
+    let ver = sh.ver();
     let mut out = Vec::new();
     for b in cfg.iter() {
         for s in b.iter() {
             match s {
                 Declaration { names, dimensions, .. } => {
-                    dimensions.iter().for_each(|d| ir_uses(d, ver, &mut out));
+                    dimensions.iter().for_each(|d| ir_uses(d, sh, &mut out));
                     for n in names.iter() {
-                        out.push(format!("d={}", vn(n, ver)));
+                        out.push(sh.occ("d", n));
                     }
                 }
-                IfThenElse { cond, .. } => ir_uses(cond, ver, &mut out),
-                Return { value, .. } => ir_uses(value, ver, &mut out),
+                IfThenElse { cond, .. } => ir_uses(cond, sh, &mut out),
+                Return { value, .. } => ir_uses(value, sh, &mut out),
                 Substitution { var, rhe, .. } => match rhe {
                     ir::Expression::Update { var: uvar, access, rhe, .. } => {
                         if ver {
-                            out.push(format!("w={}", vn(var, ver)));
-                            out.push(format!("b={}", vn(uvar, ver)));
+                            out.push(sh.occ("w", var));
+                            out.push(sh.occ("b", uvar));
                         } else {
-                            out.push(format!("t={}", vn(var, ver)));
+                            out.push(sh.occ("t", var));
                             if vn(var, false) != vn(uvar, false) {
-                                out.push(format!("MISMATCH={}", vn(uvar, ver)));
+                                out.push(sh.occ("MISMATCH", uvar));
                             }
                         }
-                        ir_access(access, ver, &mut out);
-                        ir_uses(rhe, ver, &mut out);
+                        ir_access(access, sh, &mut out);
+                        ir_uses(rhe, sh, &mut out);
                     }
                     ir::Expression::Phi { args, .. } => {
-                        out.push(format!("p={}", vn(var, ver)));
-                        args.iter().for_each(|a| out.push(format!("a={}", vn(a, ver))));
+                        out.push(sh.occ("p", var));
+                        args.iter().for_each(|a| out.push(sh.occ("a", a)));
                     }
                     _ => {
-                        out.push(format!("{}={}", if ver { "w" } else { "t" }, vn(var, ver)));
-                        ir_uses(rhe, ver, &mut out);
+                        out.push(sh.occ(if ver { "w" } else { "t" }, var));
+                        ir_uses(rhe, sh, &mut out);
                     }
                 },
                 ConstraintEquality { lhe, rhe, .. } => {
-                    ir_uses(lhe, ver, &mut out);
-                    ir_uses(rhe, ver, &mut out);
+                    ir_uses(lhe, sh, &mut out);
+                    ir_uses(rhe, sh, &mut out);
                 }
                 LogCall { args, .. } => {
                     for a in args {
                         if let ir::LogArgument::Expr(e) = a {
-                            ir_uses(e, ver, &mut out);
+                            ir_uses(e, sh, &mut out);
                         }
                     }
                 }
-                Assert { arg, .. } => ir_uses(arg, ver, &mut out),
+                Assert { arg, .. } => ir_uses(arg, sh, &mut out),
             }
         }
     }
     out
+}
+
+/// The `Declarations` table of the CFG: one `key@location:type` per entry, sorted.
+fn table(cfg: &Cfg) -> Vec<String> {
+    let mut rows: Vec<String> = cfg
+        .declarations()
+        .iter()
+        .map(|(k, d)| {
+            let l = d.file_location();
+            let same = if vn(k, true) == vn(d.variable_name(), true) { "" } else { "!key" };
+            format!("{}@{}-{}:{}{}", vn(k, false), l.start, l.end, type_letter(d.variable_type()), same)
+        })
+        .collect();
+    rows.sort();
+    rows
 }
 
 // ---- one case ----
@@ -387,10 +475,12 @@ fn case(src: &str) -> String {
         None => sections.push("ir panic".to_string()),
         Some((Err(e), _)) => sections.push(format!("ir error {e}")),
         Some((Ok(cfg), reports)) => {
-            sections.push(format!("ir {}", ir_occurrences(&cfg, false).join(" ")));
+            sections.push(format!("ir {}", ir_occurrences(&cfg, &Show::Name { versions: false }).join(" ")));
+            sections.push(format!("tab {}", table(&cfg).join(" ")));
+            sections.push(format!("dcl {}", ir_occurrences(&cfg, &Show::Lookup(&cfg)).join(" ")));
             sections.push(format!("rep2 {}", reports.iter().map(show_report).collect::<Vec<_>>().join(" ")));
             let params: Vec<String> = cfg.parameters().iter().map(|p| vn(p, false)).collect();
-            match guarded(move || cfg.into_ssa().map(|c| ir_occurrences(&c, true)).map_err(|e| show_report(&e.into_report()))) {
+            match guarded(move || cfg.into_ssa().map(|c| ir_occurrences(&c, &Show::Name { versions: true })).map_err(|e| show_report(&e.into_report()))) {
                 None => sections.push("ssa panic".to_string()),
                 Some(Err(e)) => sections.push(format!("ssa error {e}")),
                 Some(Ok(occ)) => sections.push(format!("ssa [{}] {}", params.join(","), occ.join(" "))),
